@@ -297,6 +297,12 @@ func (tr *fnTrans) applyHints(prefix, key string, k int, in0 string, pos token.P
 		short = short[i+1:]
 	}
 	for _, site := range []string{fmt.Sprintf("%s%s#%d", prefix, key, k), fmt.Sprintf("%s%s#%d", prefix, short, k)} {
+		if len(tr.c.Hints[site]) > 0 {
+			if tr.hintSeen == nil {
+				tr.hintSeen = map[string]bool{}
+			}
+			tr.hintSeen[site] = true
+		}
 		for i, h := range tr.c.Hints[site] {
 			henv := tr.env()
 			henv.oldHeap = map[string]string{}
@@ -311,6 +317,7 @@ func (tr *fnTrans) applyHints(prefix, key string, k int, in0 string, pos token.P
 			t, err := tr.spec(h.E, henv)
 			if err != nil {
 				if strings.Contains(err.Error(), "unknown identifier") {
+					tr.warns = append(tr.warns, fmt.Sprintf("%s: hint at %s skipped: %v", tr.key, site, err))
 					continue // the hint speaks about locals that do not exist at this call site
 				}
 				tr.errorf("%s: hint %s: %v", tr.key, h.Src, err)
